@@ -1,4 +1,5 @@
 import BfeVerif.C12.Proofs
+import BfeVerif.C12.ComposeProofs
 /-!
   C12 — cluster lookup combines basic and advanced rules as documented.
   Property theorems only.
@@ -90,6 +91,28 @@ theorem C12_witness_empty_cluster :
   have := h none (some [⟨true, ""⟩, ⟨true, "c"⟩])
   revert this; decide
 
+/-- C12 ∘ C18 (end to end): when the advanced conditions are trees over primitives the C18 model covers
+    (every condition evaluates), `LookupCluster` with the MODELLED condition values sends the request to the
+    basic hit naming a real cluster, else to the first rule in order whose condition holds on the request,
+    else nowhere. -/
+theorem C12_compose_C18 (o : C18.Orc) (basic : Basic) (es : List ERule) (r : C18.Req)
+    (hev : ∀ e ∈ es, (eval o r e.cond).isSome = true) (hwf : ∀ e ∈ es, e.cluster ≠ "") :
+    ∃ res, lookupClusterE o basic (some es) r = some res ∧ res.toOption = specLookupE o basic.join es r := by
+  obtain ⟨bs, hb, _, hf, hm⟩ := bitsOf_some o r es hev
+  refine ⟨lookupCluster basic (some bs), by simp [lookupClusterE, hb], ?_⟩
+  have hwfb : WF ((some bs).getD []) := by
+    intro b hbm
+    obtain ⟨e, he, hc⟩ := hm b (by simpa using hbm)
+    rw [hc]; exact hwf e he
+  rw [C12_refines basic (some bs) hwfb]
+  simp only [specLookup, specLookupE, specAdvanced, Option.getD_some, hf]
+  cases Option.join basic <;> rfl
+
+/-- … and for condition trees over the primitives whose C18 model is proved equal to the documentation
+    (C18's list `unconditional`: path, method, cookie, query-key, tag, IP-range … primitives), "holds" is the DOCUMENTED meaning of the condition. -/
+theorem C12_compose_documented (o : C18.Orc) (r : C18.Req) (c : Cond) (h : c.overProved) : eval o r c = evalSpec o r c :=
+  eval_eq_evalSpec o r c h
+
 /-! non-vacuity: the documented example of route.md (www.c.com → ADVANCED_MODE → Demo-D1 / Demo-D / Demo-E) -/
 example : WF [⟨false, "Demo-D1"⟩, ⟨true, "Demo-D"⟩, ⟨true, "Demo-E"⟩] := (wfB_iff _).mp (by decide)
 example : lookupCluster (some (some advancedMode)) (some [⟨false, "Demo-D1"⟩, ⟨true, "Demo-D"⟩, ⟨true, "Demo-E"⟩])
@@ -97,5 +120,18 @@ example : lookupCluster (some (some advancedMode)) (some [⟨false, "Demo-D1"⟩
 example : lookupCluster (some (some "Demo-A")) (some [⟨true, "Demo-E"⟩]) = .cluster "Demo-A" := by decide
 example : lookupCluster (some none) (some [⟨false, "x"⟩]) = .errNoMatchRule := by decide
 example : lookupCluster none none = .errNoProductRule := by decide
+
+/-- end-to-end example: `req_path_prefix_in("/a", false) -> A ; default_t() -> E` behind an ADVANCED_MODE basic hit -/
+def exRules : List ERule :=
+  [⟨.prim "req_path_prefix_in" [47, 97] [] false, "A"⟩, ⟨.tt, "E"⟩]
+def exOrc : C18.Orc :=
+  { x := { regexOk := fun _ => true, parseIP := fun _ => none, parseTime := fun _ => none, sscanf6 := fun _ => none },
+    reMatch := fun _ _ => false, bucket := fun _ => 0 }
+def exReq (p : List UInt8) : C18.Req :=
+  { host := [], path := p, method := [71, 69, 84], query := [], headers := [], cookies := [],
+    tags := [], cip := none, vip := none }
+example : lookupClusterE exOrc (some (some advancedMode)) (some exRules) (exReq [47, 97, 47, 98]) = some (.cluster "A") := by decide
+example : lookupClusterE exOrc (some (some advancedMode)) (some exRules) (exReq [47, 98]) = some (.cluster "E") := by decide
+example : ∀ e ∈ exRules, (eval exOrc (exReq [47, 98]) e.cond).isSome = true := by decide
 
 end BfeVerif.C12
